@@ -1,5 +1,5 @@
 (* Driver for the type-table / relation / narrowing models and the semantic oracle.
-   usage: types_driver [--cfg legacy|f7|fixed]
+   usage: types_driver [--cfg legacy|f7|fixed|partial|current]
    stdin, one case per line, two kinds:
      (ops OP..) (qs Q..)      same language as harness qv_types; prints
                               (ids ..) (rs ..) (reg (tuples ..) (types ..))   [model run]
@@ -81,7 +81,7 @@ let rec dump_value = function
 
 let fuel = nat_of_int 100000
 let walk_fuel = nat_of_int 64
-let cfg = ref legacy_cfg
+let cfg = ref current_cfg
 
 let apply_op (p : registry) (op : Sexp.t) : registry * nat =
   match op with
@@ -147,7 +147,7 @@ let () =
   let argv = Array.to_list Sys.argv in
   let rec opts = function
     | "--cfg" :: v :: rest ->
-      cfg := (match v with "legacy" -> legacy_cfg | "f7" -> f7_cfg | "fixed" -> fixed_cfg | _ -> failwith "bad cfg");
+      cfg := (match v with "legacy" -> legacy_cfg | "f7" -> f7_cfg | "fixed" -> fixed_cfg | "partial" -> partial_cfg | "current" -> current_cfg | _ -> failwith "bad cfg");
       opts rest
     | _ :: rest -> opts rest
     | [] -> () in
